@@ -210,10 +210,10 @@ pub fn unit_args(dir: &Path, unit: &Unit, corpus: &Corpus, out: &Path) -> Vec<St
         args.push("--split".into());
     }
     if unit.cfg.keep_unknown {
-        for f in &d.doc.files {
-            args.push("--keep-unknown".into());
-            args.push(idl_dir.join(format!("{}.thrift", f.stem)).to_string_lossy().to_string());
-        }
+        // retention is asked for the main file: it extends to everything that file includes,
+        // directly or through other files
+        args.push("--keep-unknown".into());
+        args.push(main.to_string_lossy().to_string());
     }
     args
 }
@@ -572,7 +572,7 @@ pub fn run_multi(ctx: &Ctx, id: &str, bins: &[&str]) -> i32 {
         if sub == "pb-runtime" {
             return crate::c05::replay(ctx);
         }
-        if sub == "pb-runtime-merge" {
+        if sub == "pb-runtime-merge" || sub == "pb-wrapper-merge" {
             return crate::c05::c18_replay(ctx);
         }
         if sub == "pb-runtime-chain" || sub == "pb-runtime-fault" || sub == "pb-wrapper" {
